@@ -224,6 +224,12 @@ def removeKey (s : State κ) (k : κ) : State κ × List (Ev κ) :=
       ({ s with cache := fun k' => if k' = k then none else s.cache k',
                 flights := s.flights.set g { fl with removed := true } }, [.rm k g])
 
+/-- close(flight.done) -/
+def setDone (s : State κ) (f : Nat) : State κ :=
+  match s.flights[f]? with
+  | none => s
+  | some fl => { s with flights := s.flights.set f { fl with done := true } }
+
 /-- evictPreparedID(key, id): only a finished flight whose id equals the server's is removed; a finished
     flight without prepared statement would be a nil dereference -/
 def evictIfMatch (s : State κ) (k : κ) (id : Id) : State κ × List (Ev κ) :=
@@ -288,10 +294,12 @@ def step (s : State κ) : Action κ → Option (State κ × List (Ev κ))
       | some r =>
         if fl.done then none
         else
-          let s1 : State κ := { s with flights := s.flights.set f { fl with done := true } }
           match r with
-          | some _ => some (s1, [])
-          | none => some (removeKey s1 fl.key)
+          | some _ => some (setDone s f, [])
+          | none =>
+            -- flight.err = err; stmtsLRU.remove(key); (deferred) close(flight.done)
+            let r1 := removeKey s fl.key
+            some (setDone r1.1 f, r1.2)
   | .observe c a =>
     match s.callers[c]? with
     | none => none
